@@ -207,10 +207,11 @@ EXTRA = {
  "C08": " Compaction x reorg scenarios additionally with header-first forks, with the spent pairs created in the horizon block, and under UserTesting parameters (cut-through horizon 70, state-sync threshold 20) in a process of their own.",
  "C11": " Also the API-facing JSON documents with hand-written Deserialize impls (api::OutputPrintable, api::Output: every key dropped / null / wrong type / twice, proofs of every length) and their post-decode accessors.",
  "C12": " Outputs created, spent and created again (the commitment occurs twice on one side: exactly the matched pairs go, operand sets that would leave a duplicate must be refused); every second hydration takes the node's route through Pool::retrieve_transactions.",
- "C13": " Pool decisions for all three rules with the header chain on a competing fork (one above / level with / one below the body head); decisions taken by a node closed and reopened right before them (start-up index rebuild).",
- "C14": " A weight-boundary operation: a fan-out and its consolidating child in the pool, fillers walking the pool weight across the mineable limit, the mineable set assembled and weighed after every step.",
+ "C13": " Pool decisions for all three rules with the header chain on a competing fork (one above / level with / one below the body head); decisions taken by a node closed and reopened right before them (start-up index rebuild). The same NRD kernel mined 4-6 times on one chain, with forks that leave the chain below two or more of those occurrences and carry the kernel again one block early / exactly at / one block after the threshold, a restart before the fork, and the chain reorganising to the fork and back: every block judged by the reference ledger on its own ancestry.",
+ "C14": " Immature coinbase spends also as (features, commitment) inputs that declare the coinbase a plain output; a refused mined block names its cause (entry inadmissible when admitted / height of the next block fell after admission), so the recorded reorg-to-lower-height finding cannot hide another. A weight-boundary operation: a fan-out and its consolidating child in the pool, fillers walking the pool weight across the mineable limit, the mineable set assembled and weighed after every step.",
  "C16": " A boundary world whose archive header commits to exactly 1024 outputs; hostile archives in which an unspent leaf is re-labelled with its leaf hash recomputed (sibling spent / unspent).",
- "C17": " Two archive-server threads per run (txhashset_read of the head / its parent: every handed-out file must be the finished archive, which must unpack completely) and kernel look-ups among the readers. Deterministic companion: body head on a fork with transactions while the header chain is on a heavier header-only fork with fewer kernels (24 / 96 states), every kernel of the body chain looked up through get_kernel_height from a helper thread — a look-up that does not return within 2 x 30 s holds the header MMR lock for ever (defect 56339d478, found by the concurrent runs); 20 other read calls of the API / sync code (get_header_for_output, get_merkle_proof_for_pos, unspent_outputs_by_pmmr_index, block_height_range_to_pmmr_indices, get_last_n_*, fork_point, check_txhashset_needed, txhashset_archive_header[_header_only], get_locator_hashes, difficulty_iter, get_header_by_height) must come back without a panic in the same state.",
+ "C17": " Second binary (c17w, evidence under coverage.extra.wiring): the node's own wiring — Chain + TransactionPool + PoolToChainAdapter + ChainToPoolAndNetAdapter + NetToChainAdapter as servers/src/grin/server.rs builds them — shared by peer threads (block_received / header_received / compact_block_received, compact blocks hydrated from the pool), transaction relays (transaction_received), a miner (mine_block::get_block through hook H7: pool lock then chain locks; templates checked against the reference commitments, some mined and submitted) and look-up threads; same watchdog / HeadMove-log / end-state oracles plus the pool some sequential order would leave. Two archive-server threads per run (txhashset_read of the head / its parent: every handed-out file must be the finished archive, which must unpack completely) and kernel look-ups among the readers. Deterministic companion: body head on a fork with transactions while the header chain is on a heavier header-only fork with fewer kernels (24 / 96 states), every kernel of the body chain looked up through get_kernel_height from a helper thread — a look-up that does not return within 2 x 30 s holds the header MMR lock for ever (defect 56339d478, found by the concurrent runs); 20 other read calls of the API / sync code (get_header_for_output, get_merkle_proof_for_pos, unspent_outputs_by_pmmr_index, block_height_range_to_pmmr_indices, get_last_n_*, fork_point, check_txhashset_needed, txhashset_archive_header[_header_only], get_locator_hashes, difficulty_iter, get_header_by_height) must come back without a panic in the same state.",
+ "C18": " Second binary (c18c, evidence under coverage.extra.chainstore): the same overlay-model oracle one layer up, on the chain's own store — ChainStore::Batch helpers (heads, headers, blocks, sums, spent index, output_pos index and its iterator), child batches to depth 3 including parents that write only through their children, the NRD recent-kernel index (push / pop / pop_back / rewind / peek / clear and whole-list walks) — with reads inside batches, through the store's own handle while a batch is open, and after close + reopen.",
  "C19": " The limit cases also under Mainnet parameters in a process of their own (unknown-type bodies of 47 999 .. 1 000 000 bytes and up to the 5.4 MB limit, each followed by a sentinel); handshake followed by traffic in the same segment; self connection after 1 / 99 / 150 outbound handshakes.",
 }
 
